@@ -128,6 +128,7 @@ func (x *run) fail(sig, what string) {
 
 func (x *run) reportStall(where string) {
 	x.stall = true
+	stalls.Add(1)
 	lockable := x.r.pool.VerifC19TryLock(2 * time.Second)
 	sig := "liveness:reorg-loop-stalled"
 	if !lockable {
@@ -147,6 +148,10 @@ func (x *run) monitor(s *Snap, afterRun bool, where string) {
 				sig = "pending:gap:after-nonce-regress"
 			}
 		}
+		if sig == "pnonce:below-state-nonce-when-empty" && x.c.Cfg.GlobalSlots+x.c.Cfg.GlobalQueue <= 16 {
+			// only reachable through the pool-full branch of add during re-injection (outside the model)
+			sig += ":small-limits"
+		}
 		x.fail(sig, fmt.Sprintf("after %s: %s", where, v.what))
 	}
 	for a := range x.tainted {
@@ -165,7 +170,7 @@ func (x *run) rPanics() int64 { return panicSeen.Load() }
 // regressPossible: in a concurrent history the announcement order is not known; an account
 // can see its state nonce lowered if two announced heads disagree on it.
 func (x *run) regressPossible(a int) bool {
-	if x.c.Kind != "conc" {
+	if x.c.Kind != "conc" && x.c.Kind != "lin" {
 		return false
 	}
 	lo, hi := ^uint64(0), uint64(0)
